@@ -1,18 +1,45 @@
-// integer models of the aperture-7 parent functions, division-free (q chosen by the solver, pinned by assume)
+// L-UP7: integer models of the aperture-7 parent functions, division-free (q chosen by the solver, pinned by
+// assume). Justified by the lemma jobs (harness/L_up7.c) that prove the REAL _upAp7/_upAp7r (lround(n*M_ONESEVENTH))
+// equal to nearest-integer division on |i|,|j|,|k| <= UPB; every use asserts that precondition.
+// Linked only when coordijk.c is compiled with -D_upAp7=_upAp7_real -D_upAp7r=_upAp7r_real.
 #ifndef VP_NATIVE
 #include "coordijk.h"
-#define UPB (1<<26)
+#ifndef UPB
+#define UPB (1 << 12)
+#endif
 int nondet_int(void);
-static int rdiv7(int n){ int q=nondet_int(); __CPROVER_assume(q>=-(1<<27)&&q<=(1<<27)); __CPROVER_assume(7*q-3<=n && n<=7*q+3); return q; }
-void _upAp7(CoordIJK *ijk){
-  __CPROVER_assert(ijk->i>=-UPB&&ijk->i<=UPB&&ijk->j>=-UPB&&ijk->j<=UPB&&ijk->k>=-UPB&&ijk->k<=UPB,"upAp7 stub precondition");
-  int i=ijk->i-ijk->k, j=ijk->j-ijk->k;
-  ijk->i=rdiv7(3*i-j); ijk->j=rdiv7(i+2*j); ijk->k=0; _ijkNormalize(ijk);
+static int vp_rdiv7(int n) {
+    int q = nondet_int();
+    __CPROVER_assume(q >= -(1 << 27) && q <= (1 << 27));
+    __CPROVER_assume(7 * q - 3 <= n && n <= 7 * q + 3);
+    return q;
 }
-void _upAp7r(CoordIJK *ijk){
-  __CPROVER_assert(ijk->i>=-UPB&&ijk->i<=UPB&&ijk->j>=-UPB&&ijk->j<=UPB&&ijk->k>=-UPB&&ijk->k<=UPB,"upAp7r stub precondition");
-  int i=ijk->i-ijk->k, j=ijk->j-ijk->k;
-  ijk->i=rdiv7(2*i+j); ijk->j=rdiv7(3*j-i); ijk->k=0; _ijkNormalize(ijk);
+void _upAp7(CoordIJK *ijk) {
+    __CPROVER_assert(ijk->i >= -UPB && ijk->i <= UPB && ijk->j >= -UPB && ijk->j <= UPB && ijk->k >= -UPB && ijk->k <= UPB, "L-UP7 model used inside its proved range");
+    int i = ijk->i - ijk->k, j = ijk->j - ijk->k;
+    ijk->i = vp_rdiv7(3 * i - j);
+    ijk->j = vp_rdiv7(i + 2 * j);
+    ijk->k = 0;
+    _ijkNormalize(ijk);
 }
-
+void _upAp7r(CoordIJK *ijk) {
+    __CPROVER_assert(ijk->i >= -UPB && ijk->i <= UPB && ijk->j >= -UPB && ijk->j <= UPB && ijk->k >= -UPB && ijk->k <= UPB, "L-UP7 model used inside its proved range");
+    int i = ijk->i - ijk->k, j = ijk->j - ijk->k;
+    ijk->i = vp_rdiv7(2 * i + j);
+    ijk->j = vp_rdiv7(3 * j - i);
+    ijk->k = 0;
+    _ijkNormalize(ijk);
+}
+#ifdef UP7_CHECKED
+H3Error _upAp7Checked(CoordIJK *ijk) {
+    __CPROVER_assert(ijk->i >= 0 && ijk->i <= UPB && ijk->j >= 0 && ijk->j <= UPB && ijk->k >= 0 && ijk->k <= UPB, "L-UP7 checked model used inside its proved range");
+    _upAp7(ijk);
+    return E_SUCCESS;
+}
+H3Error _upAp7rChecked(CoordIJK *ijk) {
+    __CPROVER_assert(ijk->i >= 0 && ijk->i <= UPB && ijk->j >= 0 && ijk->j <= UPB && ijk->k >= 0 && ijk->k <= UPB, "L-UP7 checked model used inside its proved range");
+    _upAp7r(ijk);
+    return E_SUCCESS;
+}
+#endif
 #endif
